@@ -129,8 +129,11 @@ pub fn run(case: &Value, seed: u64) -> Obj {
         }
         "receive_slice" => {
             mark = install(&mut env);
-            let c = read_mode(Command::fprd(TARGET, 0x0010), case);
-            result = env.run(async { c.receive_slice(md, 4).await.map(|v| plain(v.to_vec())) });
+            // "slice_len": 4 (registers) or a read of plain RAM of any length up to what a frame takes (1100: the
+            // response then fills its slot to the last byte)
+            let n = get_u64(case, "slice_len", 4).clamp(1, 1100) as u16;
+            let c = read_mode(Command::fprd(TARGET, if n > 4 { 0x2000 } else { 0x0010 }), case);
+            result = env.run(async { c.receive_slice(md, n).await.map(|v| plain(v.to_vec())) });
         }
         "brd_receive_u16" => {
             mark = install(&mut env);
